@@ -27,7 +27,9 @@ import (
 // The token alphabet of DESIGN §4 C15.  A pattern is the concatenation of a
 // token sequence; index 0 is the empty pattern, then all 1-token patterns, ...
 var tokens = []string{"a", "b", ".", "%a", "%d", "%A", "[ab]", "[^a]", "[a-c]", "[%a-]",
-	"*", "+", "-", "?", "(", ")", "()", "^", "$", "%1", "%2", "%b()", "%f[a]", "%", "["}
+	"*", "+", "-", "?", "(", ")", "()", "^", "$", "%1", "%2", "%b()", "%f[a]", "%", "[",
+	// a literal byte >= 0x80 (patterns and subjects are byte strings, not text)
+	"\xe9"}
 
 func nSeq(maxTok int) uint64 {
 	var n, p uint64 = 0, 1
@@ -58,6 +60,11 @@ func seqPattern(i uint64) string {
 // pattern text: always a and b, plus the characters that the other constructs
 // distinguish (3 or 4 letters in total).
 func alphabetFor(pat string) string {
+	if strings.Contains(pat, "\xe9") && !strings.Contains(pat, "%a") && !strings.Contains(pat, "%A") && !strings.Contains(pat, "%b") {
+		// (what %a says of a byte >= 0x80 depends on the locale: such patterns
+		// only get 7-bit subjects, below)
+		return "a\xe9b"
+	}
 	if strings.Contains(pat, "%b") {
 		return "ab()"
 	}
@@ -1216,7 +1223,7 @@ func main() {
 	core.Main(&core.Check{
 		ID:    "C15",
 		Level: "model_checking",
-		Rule: "every pattern of <= N tokens over the 25-token alphabet of DESIGN §4 C15 (malformed and unspecified texts included) x every subject of length <= L over a 3-4 letter alphabet chosen from the pattern's constructs x every init in -len-1..len+2 (and omitted), " +
+		Rule: "every pattern of <= N tokens over the 26-token alphabet of DESIGN §4 C15 (malformed and unspecified texts included) x every subject of length <= L over a 3-4 letter alphabet chosen from the pattern's constructs x every init in -len-1..len+2 (and omitted), " +
 			"through string.find, string.match, string.gmatch (whole iteration sequence) and string.gsub (string/table/function replacement, %0..%2, n limits; result and count), and through pattern.New/MatchFromStart/Match; " +
 			"one evaluation = one pattern with all its subjects (transitions = library calls); non-trivial = the manual determines the outcome; distinct = distinct observation vectors",
 		Assumptions: []string{
